@@ -441,7 +441,96 @@ def encode_ladder():
           % (', '.join('(%s, %s)' % st for st in steps), tail.group(1), pm.group(1), pm.group(2), pm.group(3), extra))
 
 
-ALL = dict(encode_ladder=encode_ladder, sess_consts=sess_consts, mpmc=mpmc, sched=sched, logger_facts=logger_facts, xml_facts=xml_facts, timer_consts=timer_consts, schema_utest=schema_utest, consts=consts, itoa_table=itoa_table, mon_days=mon_days, tables_utest=tables_utest)
+# add to tools/gen_facts.py (before `ALL = ...`), and add `reader=reader` to the ALL dict
+
+def reader():
+    """constants and the shape of the two guards of FIXReader::read that the C15 model is parametric in"""
+    hpp = _src('include/fix8/connection.hpp')
+    m = re.search(r'enum\s*\{\s*_max_msg_len\s*=\s*(\w+)\s*,\s*_chksum_sz\s*=\s*(\d+)\s*\}', hpp)
+    if not m:
+        raise FactError('enum { _max_msg_len, _chksum_sz } not found in include/fix8/connection.hpp')
+    cfg = _src('include/fix8/f8config.h')
+    fld = _src('include/fix8/field.hpp')
+
+    def resolve(name):
+        if name.isdigit():
+            return int(name)
+        for text, pat in ((cfg, r'#define\s+%s\s+(\d+)'), (fld, r'const\s+size_t\s+%s\s*\(\s*(\d+)\s*\)')):
+            mm = re.search(pat % re.escape(name), text)
+            if mm:
+                return int(mm.group(1))
+        raise FactError('cannot resolve the constant %s used by FIXReader::read' % name)
+    maxlen, chk = resolve(m.group(1)), int(m.group(2))
+    cpp = _src('runtime/connection.cpp')
+    mf = re.search(r'bool FIXReader::read\(f8String& to\).*?\n\}\n', cpp, re.S)
+    if not mf:
+        raise FactError('FIXReader::read not found in runtime/connection.cpp')
+    body = mf.group(0)
+    mb = re.search(r'char\s+msg_buf\[(\w+)\]', body)
+    mt = re.search(r'char\s+tag\[(\w+)\]\s*,\s*val\[(\w+)\]\s*;', body)
+    if not mb or not mt:
+        raise FactError('buffer declarations of FIXReader::read not recognised')
+    if mb.group(1) != '_max_msg_len':
+        raise FactError('msg_buf is no longer _max_msg_len bytes: %s' % mb.group(1))
+    tagsz, valsz = resolve(mt.group(1)), resolve(mt.group(2))
+    ml = re.search(r'while\s*\(\s*bt\s*!=\s*default_field_separator\s*&&\s*offs\s*<\s*([^;]+?)\s*\)\s*;', body)
+    if not ml:
+        raise FactError('termination condition of the BodyLength digit loop not recognised')
+    lim = ml.group(1).strip()
+    if lim == '_max_msg_len':
+        extra = 'none'
+    else:
+        mm = re.fullmatch(r'_bg_sz\s*\+\s*(\w+)', lim)
+        if not mm:
+            raise FactError('unexpected bound of the BodyLength digit loop: %s' % lim)
+        k = mm.group(1)
+        if not k.isdigit():
+            md = re.search(r'\b%s\s*[({=]\s*(\d+)' % re.escape(k), body) or re.search(r'\b%s\s*=\s*(\d+)' % re.escape(k), hpp)
+            if not md:
+                raise FactError('cannot resolve %s in the bound of the BodyLength digit loop' % k)
+            k = md.group(1)
+        extra = 'some %s' % k
+    # extract_element: as found (no bounds) or with the bounds tests `tag == tag_last` / `val == val_last` whose default sizes are read's buffers
+    msg = _src('include/fix8/message.hpp')
+    mx = re.search(r'static unsigned extract_element\(const char \*from, const unsigned sz, char \*tag, char \*val([^)]*)\)\s*\{(.*?)\n\t\}\n', msg, re.S)
+    if not mx:
+        raise FactError('MessageBase::extract_element(char*, char*) not found in include/fix8/message.hpp')
+    xargs, xbody = mx.group(1), mx.group(2)
+    has_t, has_v = 'tag == tag_last' in xbody, 'val == val_last' in xbody
+    if has_t != has_v:
+        raise FactError('extract_element bounds only one of its two buffers: not a form the model knows')
+    bounded = has_t
+    if bounded:
+        ma = re.search(r'const unsigned tag_sz\s*=\s*(\w+)\s*,\s*const unsigned val_sz\s*=\s*(\w+)', xargs)
+        ml2 = re.search(r'tag_last\(tag \+ tag_sz - 1\)\s*,\s*\*const val_last\(val \+ val_sz - 1\)', xbody)
+        if not ma or not ml2:
+            raise FactError('bounded extract_element: default sizes / last-element pointers not recognised')
+        if (resolve(ma.group(1)), resolve(ma.group(2))) != (tagsz, valsz):
+            raise FactError('extract_element default bounds %s,%s differ from the buffers of FIXReader::read' % (ma.group(1), ma.group(2)))
+        if len(re.findall(r'MessageBase::extract_element\([^;]*?, tag, val\)', body)) != 2:
+            raise FactError('FIXReader::read no longer calls extract_element(.., tag, val) with the default bounds')
+    elif xargs.strip():
+        raise FactError('unexpected extra parameters of extract_element: %s' % xargs)
+    first = bool(re.search(r'if\s*\(\s*!\s*isdigit\s*\(\s*(static_cast<unsigned char>\()?msg_buf\[_bg_sz\s*-\s*1\]\)?\s*\)\s*\)\s*(//[^\n]*)?\s*throw\s+IllegalMessage', body))
+    exe = vlib.build_harness('framer', need_schema=True, extra_flags=['-ldl'])
+    rc, o = vlib.sh([exe], env=vlib.ENV_RUN, timeout=120, input='dump\n')
+    md = re.search(r'beginstr=([0-9a-f]+) bg=(\d+) max=(\d+) chk=(\d+) tagmax=(\d+) fldmax=(\d+)', o)
+    if rc or not md:
+        raise FactError('framer dump failed: ' + o[-300:])
+    if (int(md.group(3)), int(md.group(4))) != (maxlen, chk):
+        raise FactError('compiled reader constants %s differ from the extracted ones (%d, %d)' % (md.groups()[2:4], maxlen, chk))
+    bs = bytes.fromhex(md.group(1))
+    _emit('Reader', '/-- `FIXReader::_max_msg_len`, `_chksum_sz`; `char tag[%s], val[%s]` in `FIXReader::read` -/\n'
+          'def readerMaxMsgLen : Nat := %d\ndef readerChksumSz : Nat := %d\ndef readerTagBuf : Nat := %d\ndef readerValBuf : Nat := %d\n\n'
+          '/-- bound of the BodyLength digit loop: `none` = `offs < _max_msg_len`, `some k` = `offs < _bg_sz + k` (source: `%s`) -/\n'
+          'def readerLoopExtra : Option Nat := %s\n\n/-- is `msg_buf[_bg_sz - 1]` (first BodyLength character) tested with isdigit before the loop -/\n'
+          'def readerFirstCheck : Bool := %s\n\n/-- does `MessageBase::extract_element` test `tag == tag_last` / `val == val_last` before each store -/\ndef extractBounded : Bool := %s\n\n/-- `_beginStr` of the metadata context the harness session runs on (FIX42UTEST) -/\ndef readerBeginStr : List Nat := [%s]\n'
+          % (mt.group(1), mt.group(2), maxlen, chk, tagsz, valsz, lim, extra, 'true' if first else 'false', 'true' if bounded else 'false', ', '.join(str(b) for b in bs)))
+    return dict(beginstr=bs, maxlen=maxlen, chk=chk, tagsz=tagsz, valsz=valsz, extra=None if extra == 'none' else int(extra.split()[1]), first=first, bounded=bounded,
+                bg_compiled=int(md.group(2)))
+
+
+ALL = dict(reader=reader, encode_ladder=encode_ladder, sess_consts=sess_consts, mpmc=mpmc, sched=sched, logger_facts=logger_facts, xml_facts=xml_facts, timer_consts=timer_consts, schema_utest=schema_utest, consts=consts, itoa_table=itoa_table, mon_days=mon_days, tables_utest=tables_utest)
 
 
 def generate(names):
